@@ -17,12 +17,160 @@ Every switch taken is recorded as [global_step, target]; that list is the
 schedule of the run and replays exactly.
 """
 
+import _thread
 import sys
 import threading
 
 
 class SchedulerError(BaseException):
     pass
+
+
+class DeadlockDetected(BaseException):
+    """every live worker thread is blocked on a lock held by another one"""
+
+
+class _Baton:
+    """binary semaphore on a raw interpreter lock (never on threading.Lock,
+    which install_lock_seam() replaces)"""
+
+    def __init__(self):
+        self._l = _thread.allocate_lock()
+        self._l.acquire()
+
+    def release(self):
+        self._l.release()
+
+    def acquire(self, timeout=None):
+        if timeout is None:
+            return self._l.acquire()
+        return self._l.acquire(True, timeout)
+
+
+# --------------------------------------------------------------------------
+# lock seam: blocking synchronisation inside the code under test
+#
+# With baton passing only one worker runs.  If it blocks in a real
+# Lock.acquire() on a lock whose holder is parked, nobody can ever release
+# it: the *harness* would deadlock a perfectly correct, properly locked
+# library (this happened with a refactor that guards a cache with a module
+# level lock).  So locks created through threading.Lock / threading.RLock
+# after install_lock_seam() are thin wrappers: outside a scheduled run they
+# behave exactly like the real thing; inside, a would-block acquire hands the
+# baton to another live worker and retries when this thread is scheduled
+# again -- which is what the OS would do, with the choice of who runs next
+# made by the scheduler (deterministically: the next live worker in order).
+# --------------------------------------------------------------------------
+
+_ACTIVE = {}  # thread ident -> (scheduler, tid) for worker threads of a running Scheduler
+_REAL_LOCK = _thread.allocate_lock
+_REAL_RLOCK = threading.RLock
+_installed = [False]
+
+
+class SimLock:
+    def __init__(self):
+        self._l = _REAL_LOCK()
+
+    def acquire(self, blocking=True, timeout=-1):
+        ent = _ACTIVE.get(_thread.get_ident())
+        if ent is None:
+            return self._l.acquire(blocking, timeout)
+        while True:
+            if self._l.acquire(False):
+                return True
+            if not blocking:
+                return False
+            if not ent[0].yield_blocked(ent[1]):
+                if timeout is not None and timeout >= 0:
+                    return False
+                raise DeadlockDetected("all worker threads are blocked on locks")
+
+    def release(self):
+        self._l.release()
+
+    def locked(self):
+        return self._l.locked()
+
+    __enter__ = acquire
+
+    def __exit__(self, *a):
+        self._l.release()
+
+    def _at_fork_reinit(self):
+        self._l = _REAL_LOCK()
+
+
+class SimRLock:
+    def __init__(self):
+        self._l = _REAL_LOCK()
+        self._owner = None
+        self._count = 0
+
+    def acquire(self, blocking=True, timeout=-1):
+        me = _thread.get_ident()
+        if self._owner == me:
+            self._count += 1
+            return True
+        ent = _ACTIVE.get(me)
+        if ent is None:
+            ok = self._l.acquire(blocking, timeout)
+        else:
+            ok = False
+            while True:
+                if self._l.acquire(False):
+                    ok = True
+                    break
+                if not blocking:
+                    break
+                if not ent[0].yield_blocked(ent[1]):
+                    if timeout is not None and timeout >= 0:
+                        break
+                    raise DeadlockDetected("all worker threads are blocked on locks")
+        if ok:
+            self._owner = me
+            self._count = 1
+        return ok
+
+    def release(self):
+        if self._owner != _thread.get_ident():
+            raise RuntimeError("cannot release un-acquired lock")
+        self._count -= 1
+        if self._count == 0:
+            self._owner = None
+            self._l.release()
+
+    __enter__ = acquire
+
+    def __exit__(self, *a):
+        self.release()
+
+    def _is_owned(self):
+        return self._owner == _thread.get_ident()
+
+    def _at_fork_reinit(self):
+        self._l = _REAL_LOCK()
+        self._owner = None
+        self._count = 0
+
+
+_ORIG = (threading.Lock, threading.RLock)
+
+
+def install_lock_seam():
+    """Active (a) while the tree under test is imported, so that its module
+    level locks are created through the seam, and (b) for the whole life of a
+    C13 scenario child, so that locks it creates at run time are too.  Not
+    active otherwise: the harness' own machinery (process pools, logging)
+    keeps real locks."""
+    threading.Lock = SimLock
+    threading.RLock = SimRLock
+    _installed[0] = True
+
+
+def remove_lock_seam():
+    threading.Lock, threading.RLock = _ORIG
+    _installed[0] = False
 
 
 class Scheduler:
@@ -56,6 +204,7 @@ class Scheduler:
         self.n = 0
         self.inside = {}  # tid -> innermost pyrtcm function name (for reach stats)
         self.overlap_pairs = set()
+        self.lock_yields = 0
 
     # -- decision ----------------------------------------------------------
     def _decide(self, tid, boosted, fresh=True):
@@ -96,6 +245,26 @@ class Scheduler:
         if not others:
             return -1
         return others[self.rng.randrange(len(others))] if len(others) > 1 else others[0]
+
+    # -- blocking synchronisation (see the lock seam above) -----------------
+    def yield_blocked(self, tid):
+        """the running worker cannot get a lock: run somebody else.  Returns
+        False if nobody else is alive (the caller decides what that means)."""
+        nxt = -1
+        for k in range(1, self.n + 1):
+            j = (tid + k) % self.n
+            if j != tid and self.alive[j]:
+                nxt = j
+                break
+        if nxt < 0:
+            return False
+        self.lock_yields += 1
+        if self.lock_yields > 200000:
+            raise DeadlockDetected("worker threads keep yielding on locks without progress")
+        self.current = nxt
+        self.sems[nxt].release()
+        self.sems[tid].acquire()
+        return True
 
     # -- tracing -----------------------------------------------------------
     def _make_tracer(self, tid):
@@ -149,13 +318,14 @@ class Scheduler:
     # -- running -----------------------------------------------------------
     def run(self, bodies, first=0, timeout=120.0):
         n = self.n = len(bodies)
-        self.sems = [threading.Semaphore(0) for _ in range(n)]
+        self.sems = [_Baton() for _ in range(n)]
         self.alive = [True] * n
         results = [None] * n
-        done = threading.Semaphore(0)
+        done = _Baton()
 
         def wrap(tid):
             self.sems[tid].acquire()  # wait for the baton
+            _ACTIVE[_thread.get_ident()] = (self, tid)
             try:
                 sys.settrace(self._make_tracer(tid))
                 try:
@@ -165,6 +335,7 @@ class Scheduler:
             except BaseException as e:  # pylint: disable=broad-except
                 self.errors.append((tid, repr(e)))
             finally:
+                _ACTIVE.pop(_thread.get_ident(), None)
                 self.alive[tid] = False
                 self.inside.pop(tid, None)
                 # hand the baton to the lowest-numbered live thread
@@ -189,5 +360,7 @@ class Scheduler:
         for t in threads:
             t.join(timeout=10)
         if self.errors:
+            if any("DeadlockDetected" in e for _, e in self.errors):
+                raise DeadlockDetected(self.errors[0][1])
             raise SchedulerError(f"thread body raised: {self.errors[:2]}")
         return results
